@@ -134,6 +134,7 @@ func init() {
 			}
 		}
 		p.signs = append(p.signs, signEvent{name, d, sig})
+		e.advanceClock() // signing takes time (tokens, HSMs): the clock may have moved on
 		return Tuple{sig, Iface{}}
 	})
 	reg(vsymPath+".Cert", func(fr *frame, a []Value) Value {
